@@ -167,6 +167,75 @@ def ba_tobytes(it, ba):
     return Term('tobytes', K(nbytes), K(ba.desc()), BAref(ba.copy()))
 
 
+def tobytes_term(ba):
+    """the byte string of a bit container (zero-padded to whole bytes), as the canonical Term the rules recognise"""
+    if ba.known():
+        pat = ba.pattern()
+        pat += '0' * (-len(pat) % 8)
+        return K(bytes(int(pat[i:i + 8], 2) for i in range(0, len(pat), 8)))
+    return Term('tobytes', K((len(ba) + 7) // 8), K(ba.desc()), BAref(ba.copy()))
+
+
+def padded(ba):
+    r = ba.copy()
+    if len(r) % 8:
+        r.extend(BA([Seg(-len(r) % 8, 'k', '0' * (-len(r) % 8))]))
+    return r
+
+
+class ByteOf:
+    """one byte taken out of the byte string of a bit container (value 0..255 with partly unknown bits)"""
+    not_none = True
+
+    def __init__(self, ba8):
+        self.ba = ba8
+
+    def abs_key(self):
+        return ('byteof', self.ba.desc())
+
+    def abs_isinstance(self, it, ty):
+        return isinstance(ty, Builtin) and ty.name == 'int'
+
+    def abs_binop(self, it, op, a, b, swapped):
+        other = a if swapped else b
+        if not (isinstance(other, K) and isinstance(other.v, int) and 0 <= other.v < 256):
+            return None
+        c = format(other.v, '08b')
+        out = BA()
+        for i in range(8):
+            bit = self.ba.slice(i, i + 1)
+            known = bit.segs[0].val if bit.segs[0].kind == 'k' else None
+            if isinstance(op, ast.BitOr):
+                r = '1' if c[i] == '1' else (known if known is not None else bit)
+            elif isinstance(op, ast.BitAnd):
+                r = '0' if c[i] == '0' else (known if known is not None else bit)
+            elif isinstance(op, ast.BitXor):
+                if c[i] == '0':
+                    r = known if known is not None else bit
+                elif known is not None:
+                    r = '1' if known == '0' else '0'
+                else:
+                    return None
+            elif isinstance(op, ast.Add) and all(self.ba.slice(j, j + 1).segs[0].kind == 'k' and self.ba.slice(j, j + 1).segs[0].val == '0' for j in range(8) if c[j] == '1'):
+                r = '1' if c[i] == '1' else (known if known is not None else bit)      # adding a constant into bits known to be zero is an OR
+            else:
+                return None
+            out.extend(BA([Seg(1, 'k', r)]) if isinstance(r, str) else r)
+        if out.known():
+            return K(int(out.pattern(), 2))
+        return ByteOf(out)
+
+    def abs_attr(self, it, a, n):
+        if a == 'to_bytes':
+            def tb(it_, args, kw, node):
+                ln = args[0] if args else kw.get('length', K(1))
+                if isinstance(ln, K) and ln.v == 1:
+                    return tobytes_term(self.ba)
+                raise Fail('to_bytes of a symbolic byte with length != 1')
+            return Native(tb, 'byte.to_bytes')
+        return None
+
+
 class BAref:
     """carries a BA snapshot inside a Term (repr by description)"""
     def __init__(self, ba):
@@ -1301,7 +1370,26 @@ def val_method(it, v, name, args, kw, node):
         if name == 'join' and isinstance(v.v, (str, bytes)) and args:
             items = it.iterate(args[0])
             if items is not None and all(isinstance(x, K) for x in items):
-                return K(v.v.join(x.v for x in items))
+                try:
+                    return K(v.v.join(x.v for x in items))
+                except TypeError as e:
+                    raise RaiseEx('TypeError', str(e)[:60])
+            if items is not None:
+                # symbolic pieces: the join is the concatenation (with the separator in between)
+                acc = None
+                for x in items:
+                    if acc is None:
+                        acc = x
+                        continue
+                    if len(v.v):
+                        acc = it.concat(acc, v)
+                    acc = it.concat(acc, x) if acc is not None else None
+                    if acc is None:
+                        break
+                if acc is not None:
+                    return acc
+                if not items:
+                    return K(v.v[:0])
             return Term('join', v, args[0])
         if isinstance(v.v, (bytes, str)) and name in ('hex', 'decode', 'encode'):
             pass
@@ -1336,6 +1424,12 @@ def val_method(it, v, name, args, kw, node):
             if args and isinstance(args[0], DictV):
                 v.d.update(args[0].d)
                 v.keyobj.update(args[0].keyobj)
+            elif args:
+                other = builtin(it, 'dict', [args[0]], {}, node)
+                if not isinstance(other, DictV):
+                    raise Fail('dict.update with something that is not a mapping / sequence of pairs')
+                v.d.update(other.d)
+                v.keyobj.update(other.keyobj)
             for k, x in kw.items():
                 v.d[k] = x
             return K(None)
@@ -1622,6 +1716,14 @@ def builtin(it, name, args, kw, n):
         d = DictV(dict(args[0].d))
         d.keyobj = dict(args[0].keyobj)
         return d
+    if name == 'enumerate' and isinstance(args[0], IterV):
+        st0 = args[1] if len(args) > 1 else kw.get('start')
+        start0 = _int(st0, 'enumerate start') if st0 is not None else 0
+
+        def egen():
+            for i, x in enumerate(it.pull_iter(args[0]), start0):
+                yield ListV([K(i), x], tup=True)
+        return IterV(gen=egen())
     if name == 'enumerate':
         items = it.iterate(args[0])
         if items is None:
@@ -1630,6 +1732,18 @@ def builtin(it, name, args, kw, n):
         start = _int(st, 'enumerate start') if st is not None else 0
         return ListV([ListV([K(i + start), x], tup=True) for i, x in enumerate(items)])
     if name == 'zip':
+        if any(isinstance(a, IterV) for a in args):
+            def zgen():
+                srcs = [it.pull_iter(a) for a in args]
+                while True:
+                    row = []
+                    for s_ in srcs:
+                        try:
+                            row.append(next(s_))
+                        except StopIteration:
+                            return
+                    yield ListV(row, tup=True)
+            return IterV(gen=zgen())
         lists = [it.iterate(a) for a in args]
         if any(l is None for l in lists):
             return Term('zip', *args)
@@ -1714,19 +1828,34 @@ def builtin(it, name, args, kw, n):
                 d.d[k_] = x
                 d.keyobj[k_] = K(k_)
             return d
+    if name in ('dict.fromkeys', 'OrderedDict.fromkeys') and args:
+        items = it.iterate(args[0])
+        if items is None:
+            raise Fail('dict.fromkeys over an unknown iterable')
+        d = DictV()
+        for x in items:
+            key = it.dkey(x)
+            d.d[key] = args[1] if len(args) > 1 else K(None)
+            d.keyobj[key] = x
+        return d
     if name == 'iter' and args:
+        if isinstance(args[0], IterV):
+            return args[0]
+        if isinstance(args[0], ListV):
+            return IterV(args[0].items)        # a live view: the list may grow while it is iterated
         items = it.iterate(args[0])
         if items is None:
             raise Fail('iter() over an unknown iterable')
-        r = ListV(list(items))
-        r.is_iter = True
-        return r
-    if name == 'next' and args and isinstance(args[0], ListV):
-        if args[0].items:
-            return args[0].items.pop(0)
-        if len(args) > 1:
-            return args[1]
-        raise RaiseEx('StopIteration', '')
+        return IterV(list(items))
+    if name == 'next' and args:
+        if not isinstance(args[0], IterV):
+            raise Fail(f'next() of {args[0]!r}')
+        try:
+            return args[0].pull()
+        except StopIter:
+            if len(args) > 1:
+                return args[1]
+            raise RaiseEx('StopIteration', '')
     if name == 'int' and args:
         v = args[0]
         if isinstance(v, PBits) and v.view == 'str' and len(args) > 1 and isinstance(args[1], K) and args[1].v == 2:
@@ -1761,6 +1890,12 @@ def builtin(it, name, args, kw, n):
             raise RaiseEx(type(e).__name__, str(e)[:60])
         except TypeError as e:
             raise RaiseEx('TypeError', str(e)[:60])
+    if name in ('bytes', 'bytearray') and args and isinstance(args[0], ListV) and args[0].items and \
+            all(isinstance(x, ByteOf) or (isinstance(x, K) and isinstance(x.v, int) and 0 <= x.v < 256) for x in args[0].items):
+        ba = BA()
+        for x in args[0].items:
+            ba.extend(x.ba if isinstance(x, ByteOf) else BA([Seg(8, 'k', format(x.v, '08b'))]))
+        return tobytes_term(ba)
     if name in ('bytes', 'bytearray') and args:
         v = args[0]
         if isinstance(v, (Sym, Term)):
@@ -1814,7 +1949,10 @@ def builtin(it, name, args, kw, n):
                 return it.invoke(FuncRef(m, c.module, c), [v], {})
         return Term('hash', v)
     if name == 'any' or name == 'all':
-        items = it.iterate(args[0])
+        if isinstance(args[0], IterV):
+            items = it.pull_iter(args[0])
+        else:
+            items = it.iterate(args[0])
         if items is None:
             return Term(name, args[0])
         for x in items:
